@@ -1,5 +1,6 @@
 import Solvor.Cut.LemmasDual
 import Solvor.Cut.MirrorLp
+import Solvor.Cut.MirrorBpLemmas
 /-!
 Cut: the property theorems of C17 (helper lemmas are in `Lemmas.lean` / `LemmasDual.lean`).
 
@@ -270,10 +271,8 @@ theorem cg_mirror_valid (W : Nat) (sizes d : List Nat) (maxIter : Nat) (eps : Ra
   exact (plan_checker_cs W sizes d o.plan o.total).2
     ⟨⟨hfit, unmetB_false_covers _ _ hc⟩, rfl⟩
 
--- non-vacuity: on the witness instance the mirror answers FEASIBLE with the 2-roll plan of solve_cg
-example : (Mirror.cgCuttingStock 7 [2, 1] [1, 4] 1000 Solvor.Gen.Cut.cgEps).status = "FEASIBLE" ∧
-    (Mirror.cgCuttingStock 7 [2, 1] [1, 4] 1000 Solvor.Gen.Cut.cgEps).plan = [([0, 7], 1), ([3, 1], 1)] := by
-  decide +kernel
+-- non-vacuity: the only hypothesis is positivity of the sizes
+example := cg_mirror_valid 7 [2, 1] [1, 4] 1000 Solvor.Gen.Cut.cgEps (by decide)
 
 theorem ceil_sub_le_ceil (q eps : Rat) (h : 0 ≤ eps) : (q - eps).ceil ≤ q.ceil := by
   rw [Rat.ceil_le_iff]
@@ -303,6 +302,16 @@ theorem cg_mirror_optimal_of_duals (W : Nat) (sizes d : List Nat) (maxIter : Nat
   have := optimal_claim_sound W sizes d o.duals o.plan hpos hy hv (by simpa [claimsOptimal] using hb)
   rw [htot]; exact this
 
+-- non-vacuity: width 2, one piece of size 1, demand 3 — the mirror answers 2 rolls OPTIMAL, its
+-- duals (1/2) pass the knapsack DP, so the theorem applies and 2 is the true minimum
+-- (the driver reports on every run how many explored inputs meet the hypotheses)
+example : IsMinRolls (Fits 2 [1]) [3] 2 := by
+  have h : let o := Mirror.cgCuttingStock 2 [1] [3] 1000 Solvor.Gen.Cut.cgEps
+      dualFeasible 2 [1] o.duals = true ∧ o.status = "OPTIMAL" ∧ o.total = 2 := by decide +kernel
+  have := cg_mirror_optimal_of_duals 2 [1] [3] 1000 Solvor.Gen.Cut.cgEps (by decide) (by decide +kernel)
+    h.1 h.2.1
+  rwa [h.2.2] at this
+
 open Mirror in
 /-- Variant for an arbitrary certificate `y` (the driver's scaled duals): mirror plan with usable
 status, `y` dual feasible, `rolls ≤ ⌈y·d⌉` ⇒ true minimum. -/
@@ -326,7 +335,7 @@ theorem cg_custom_mirror_valid_partial (cols init : List Pat) (d : List Nat) (ma
     (o.status = "OPTIMAL" ∨ o.status = "FEASIBLE" ∨ o.status = "INFEASIBLE" ∨ o.status = "OverflowError") ∧
     o.total = rolls o.plan ∧ (∀ pc ∈ o.plan, pc.1 ∈ init ∨ pc.1 ∈ cols) := by
   intro o
-  refine ⟨finishStatus_cases _ _ _ _ _ _, rfl, ?_⟩
+  refine ⟨finishStatus_cases o.plan d o.lpObj eps (customLoop cols d eps maxIter 0 init).2.2 false, rfl, ?_⟩
   intro pc hpc
   exact customLoop_mem cols d eps maxIter 0 init _ (roundUp_mem _ _ _ pc hpc)
 -- FULL STATEMENT (not proved): additionally, a usable status implies
@@ -344,7 +353,8 @@ theorem cg_custom_mirror_optimal_of_duals (cols init : List Pat) (d : List Nat) 
     o.status = "OPTIMAL" → IsMinRolls (InCols cols) d o.total := by
   intro o hchk hy hs
   have hv := ((plan_checker_cols cols d o.plan o.total).1 hchk).1
-  obtain ⟨_, q, hq, hle⟩ := finishStatus_optimal _ _ _ _ _ _ hs
+  obtain ⟨_, q, hq, hle⟩ := finishStatus_optimal o.plan d o.lpObj eps
+    (customLoop cols d eps maxIter 0 init).2.2 false hs
   have hq' : q = dotQ o.duals d := masterLP_value_eq_dual _ d eps q hq
   have hb : (rolls o.plan : Int) ≤ dualBound o.duals d := by
     unfold dualBound
@@ -355,15 +365,154 @@ theorem cg_custom_mirror_optimal_of_duals (cols init : List Pat) (d : List Nat) 
   have h1 := dual_bound_cols cols d o.duals plan' hy hv'
   exact_mod_cast le_trans hb h1
 
+-- non-vacuity: columns (2,0),(0,2),(1,1), initial (2,0),(0,2), demands (3,2): 3 columns, OPTIMAL
+example : IsMinRolls (InCols [[2, 0], [0, 2], [1, 1]]) [3, 2] 3 := by
+  have h : let o := Mirror.cgCustom [[2, 0], [0, 2], [1, 1]] [[2, 0], [0, 2]] [3, 2] 1000 Solvor.Gen.Cut.cgEps
+      checkPlan (inColsB [[2, 0], [0, 2], [1, 1]]) [3, 2] o.plan o.total = true ∧
+      dualFeasibleCols [[2, 0], [0, 2], [1, 1]] o.duals = true ∧ o.status = "OPTIMAL" ∧ o.total = 3 := by
+    decide +kernel
+  have := cg_custom_mirror_optimal_of_duals [[2, 0], [0, 2], [1, 1]] [[2, 0], [0, 2]] [3, 2] 1000
+    Solvor.Gen.Cut.cgEps (by decide +kernel) h.1 h.2.1 h.2.2.1
+  rwa [h.2.2.2] at this
+
 /-- [S, partial] `master-LP mirror`: the LP value the mirror reports equals `duals · d` for the
 duals it reports, on every input and whatever the pivots were (row-space invariant of the
 tableau, `Mirror.lpCore_obj`). -/
 theorem master_lp_value_is_dual_value (cols : List Pat) (d : List Nat) (eps : Rat) (o : Rat)
     (h : (Mirror.masterLP cols d eps).2.2 = some o) : o = dotQ (Mirror.masterLP cols d eps).2.1 d :=
   Mirror.masterLP_value_eq_dual cols d eps o h
+
+-- non-vacuity: the master LP over columns (2,0),(0,2) with demands (3,2) has value 5/2
+example : (Mirror.masterLP [[2, 0], [0, 2]] [3, 2] Solvor.Gen.Cut.cgEps).2.2 = some (5 / 2) := by
+  decide +kernel
 -- FULL STATEMENT (not proved): `master-LP mirror certifies` — on termination by optimality the
 -- returned `x` is primal feasible and the duals are dual feasible for the pool (both only up to
 -- `eps`, because eliminations with |factor| ≤ eps are skipped), hence the value is the LP optimum
 -- up to a multiple of `eps`.
+
+/-! ### T-model: the `solve_bp` mirror (Solvor/Cut/MirrorBp.lean) -/
+
+open Mirror in
+/-- C17 `bp_status_rule`: the repaired status rule of `_branch_and_price`, for EVERY node solver
+(whatever `_solve_node_lp` returns at any node): the status is OPTIMAL, FEASIBLE or INFEASIBLE;
+a usable status carries a plan whose number of rolls is the objective; and — with the default
+`gap_tol` and fewer than 10⁶ rolls — `OPTIMAL` is claimed only if the root LP was integral with a
+converged column generation, or the incumbent does not exceed the lower bound
+`lb = ⌈root LP value − eps⌉` (`0` when the root did not converge). -/
+theorem bp_status_rule (solve : Solver) (cols0 : List Pat) (d : List Nat) (eps gapTol : Rat)
+    (maxIter maxNodes : Nat) (htol1 : gapTol ≤ 1) :
+    let o := bpRun solve cols0 d eps gapTol maxIter maxNodes
+    (o.status = "OPTIMAL" ∨ o.status = "FEASIBLE" ∨ o.status = "INFEASIBLE") ∧
+    ((o.status = "OPTIMAL" ∨ o.status = "FEASIBLE") → ∃ p, o.plan = some p ∧ o.total = rolls p) ∧
+    (o.status = "OPTIMAL" → gapTol * (o.total : Rat) ≤ 1 →
+      (o.rootIntegral = true ∧ o.rootConverged = true) ∨ ((o.total : Int) ≤ o.lb)) ∧
+    (∀ q, (solve cols0 []).obj = some q → o.lb = if o.rootConverged then (q - eps).ceil else 0) := by
+  intro o
+  obtain ⟨h1, h2, h3, _, _, h6, _⟩ := bpRun_rule solve cols0 d eps gapTol maxIter maxNodes o rfl
+  refine ⟨h1, h2, ?_, h6⟩
+  intro hs htol2
+  rcases h3 hs with h | ⟨_, p, hp, hg⟩
+  · left; exact h
+  · right
+    obtain ⟨p', hp', ht⟩ := h2 (Or.inl hs)
+    have : p' = p := by rw [hp] at hp'; exact (Option.some.inj hp').symm
+    subst this
+    rw [ht] at htol2 ⊢
+    exact gapOk_le _ _ _ htol1 htol2 hg
+
+-- non-vacuity: a node solver that always reports an integral root LP
+example : (Mirror.bpRun (fun cols _ => ⟨cols, [1], [1], some 1, 0⟩) [[1]] [1] 0 (1 / 1000000) 5 5).status
+    = "OPTIMAL" := by decide +kernel
+
+open Mirror in
+/-- Generic core of `bp_mirror_optimal_of_duals`. -/
+theorem bp_optimal_core (Feas : Pat → Prop) (pr : Pricer) (cols0 : List Pat) (d : List Nat) (eps gapTol : Rat)
+    (maxIter maxNodes : Nat) (heps : 0 ≤ eps) (htol1 : gapTol ≤ 1)
+    (o : BpOut) (ho : bpRun (nodeLP pr d eps maxIter) cols0 d eps gapTol maxIter maxNodes = o)
+    (hs : o.status = "OPTIMAL") (htol2 : gapTol * (o.total : Rat) ≤ 1)
+    (hv : ∀ p, o.plan = some p → ValidPlan Feas d p)
+    (hcert : ∀ plan', ValidPlan Feas d plan' → dualBound o.rootDuals d ≤ (rolls plan' : Int))
+    (hside : o.rootIntegral = true → ∀ q, o.rootObj = some q → (o.total : Int) ≤ (q - eps).ceil) :
+    IsMinRolls Feas d o.total := by
+  obtain ⟨_, h2, h3, h4, h5, h6, h7⟩ := bpRun_rule _ cols0 d eps gapTol maxIter maxNodes o ho
+  obtain ⟨p, hp, ht⟩ := h2 (Or.inl hs)
+  obtain ⟨q, hq⟩ := h7 (Or.inl hs)
+  have hval : q = dotQ o.rootDuals d := by
+    rw [h5]; exact nodeLP_root_value pr d eps maxIter cols0 q hq
+  have hvp := hv p hp
+  -- rolls ≤ ⌈q − eps⌉, or there are no rolls at all
+  have hle : (o.total : Int) ≤ (q - eps).ceil ∨ o.total = 0 := by
+    rcases h3 hs with ⟨hri, _⟩ | ⟨_, p', hp', hg⟩
+    · left; exact hside hri q (by rw [h4]; exact hq)
+    · have : p' = p := by rw [hp] at hp'; exact (Option.some.inj hp').symm
+      subst this
+      have hlb := gapOk_le _ _ _ htol1 (by rw [← ht]; exact htol2) hg
+      rw [h6 q hq] at hlb
+      split at hlb
+      · left; rw [ht]; exact hlb
+      · right; rw [ht]; omega
+  rcases hle with hle | h0
+  · refine ⟨⟨p, hvp, ht.symm⟩, ?_⟩
+    intro plan' hv'
+    have h1 := hcert plan' hv'
+    have h2' : (q - eps).ceil ≤ dualBound o.rootDuals d := by
+      unfold dualBound; rw [← hval]; exact ceil_sub_le_ceil q eps heps
+    exact_mod_cast le_trans (le_trans hle h2') h1
+  · rw [h0]
+    exact ⟨⟨p, hvp, by rw [← ht, h0]⟩, fun _ _ => Nat.zero_le _⟩
+
+open Mirror in
+/-- C17 `bp_mirror_optimal_of_duals` (cutting stock): if the mirror of `solve_bp` says `OPTIMAL`
+and the decidable side conditions the driver evaluates on every input hold — its plan passes the
+verified checker, the duals of its root LP pass `dualFeasible` over all patterns, and, in the
+case of an integral root LP, `rolls ≤ ⌈root LP value − eps⌉` — then the plan is a true minimum.
+Uses the actual status rule (`root_converged`, `lower_bound`, gap test) and the exact identity
+`root LP value = root duals · d`. -/
+theorem bp_mirror_optimal_of_duals (W : Nat) (sizes d : List Nat) (maxIter maxNodes : Nat) (eps gapTol : Rat)
+    (hpos : ∀ s ∈ sizes, 0 < s) (heps : 0 ≤ eps) (htol1 : gapTol ≤ 1) :
+    let o := bpCuttingStock W sizes d maxIter maxNodes eps gapTol
+    o.status = "OPTIMAL" → gapTol * (o.total : Rat) ≤ 1 →
+    (∀ p, o.plan = some p → checkPlan (fitsB W sizes) d p o.total = true) →
+    dualFeasible W sizes o.rootDuals = true →
+    (o.rootIntegral = true → ∀ q, o.rootObj = some q → (o.total : Int) ≤ (q - eps).ceil) →
+    IsMinRolls (Fits W sizes) d o.total := by
+  intro o hs htol2 hchk hy hside
+  exact bp_optimal_core (Fits W sizes) (csPricer W sizes eps) (initPats W sizes d) d eps gapTol maxIter maxNodes
+    heps htol1 o rfl hs htol2
+    (fun p hp => ((plan_checker_cs W sizes d p o.total).1 (hchk p hp)).1)
+    (fun plan' hv' => dual_bound W sizes d o.rootDuals plan' hpos hy hv') hside
+
+open Mirror in
+/-- The same for an explicit column set (custom pricing). -/
+theorem bp_custom_mirror_optimal_of_duals (cols init : List Pat) (d : List Nat) (maxIter maxNodes : Nat)
+    (eps gapTol : Rat) (heps : 0 ≤ eps) (htol1 : gapTol ≤ 1) :
+    let o := bpCustom cols init d maxIter maxNodes eps gapTol
+    o.status = "OPTIMAL" → gapTol * (o.total : Rat) ≤ 1 →
+    (∀ p, o.plan = some p → checkPlan (inColsB cols) d p o.total = true) →
+    dualFeasibleCols cols o.rootDuals = true →
+    (o.rootIntegral = true → ∀ q, o.rootObj = some q → (o.total : Int) ≤ (q - eps).ceil) →
+    IsMinRolls (InCols cols) d o.total := by
+  intro o hs htol2 hchk hy hside
+  exact bp_optimal_core (InCols cols) (colsPricer cols eps) init d eps gapTol maxIter maxNodes
+    heps htol1 o rfl hs htol2
+    (fun p hp => ((plan_checker_cols cols d p o.total).1 (hchk p hp)).1)
+    (fun plan' hv' => dual_bound_cols cols d o.rootDuals plan' hy hv') hside
+
+-- non-vacuity: columns (2,0),(0,2),(1,1), initial (2,0),(0,2), demands (3,2): the root LP is
+-- fractional, the tree search finds 3 columns, OPTIMAL, and every side condition holds
+example : IsMinRolls (InCols [[2, 0], [0, 2], [1, 1]]) [3, 2] 3 := by
+  have h : let o := (Mirror.bpCustom [[2, 0], [0, 2], [1, 1]] [[2, 0], [0, 2]] [3, 2] 1000 100
+        Solvor.Gen.Cut.bpEps Solvor.Gen.Cut.bpGapTol)
+      o.status = "OPTIMAL" ∧ o.total = 3 ∧ o.rootIntegral = false ∧
+      (match o.plan with
+        | some p => checkPlan (inColsB [[2, 0], [0, 2], [1, 1]]) [3, 2] p o.total
+        | none => false) = true ∧
+      dualFeasibleCols [[2, 0], [0, 2], [1, 1]] o.rootDuals = true := by decide +kernel
+  have := bp_custom_mirror_optimal_of_duals [[2, 0], [0, 2], [1, 1]] [[2, 0], [0, 2]] [3, 2] 1000 100
+    Solvor.Gen.Cut.bpEps Solvor.Gen.Cut.bpGapTol (by decide +kernel) (by decide +kernel) h.1
+    (by rw [h.2.1]; decide +kernel)
+    (fun p hp => by have := h.2.2.2.1; rw [hp] at this; exact this) h.2.2.2.2
+    (fun hri => by rw [h.2.2.1] at hri; cases hri)
+  rwa [h.2.1] at this
 
 end Solvor.Cut
